@@ -440,6 +440,17 @@ void lyd_insert_after_node(struct lyd_node **first_sibling, struct lyd_node *sib
 void lyd_insert_before_node(struct lyd_node *sibling, struct lyd_node *node);
 
 /**
+ * @brief Transient data node flag set only while "when" conditions are being resolved in ::lyd_validate_unres().
+ *
+ * The node had ::LYD_WHEN_TRUE set when the resolution started (from a previous validation or because it was
+ * created as an implicit node) so it is auto-deleted instead of causing an error in case its "when" is false now.
+ * The ::LYD_WHEN_TRUE flag itself is cleared for as long as the "when" is not evaluated again and conditions
+ * of other nodes referencing the node are postponed (LY_EINCOMPLETE) instead of using its out-of-date state,
+ * even if LYXP_IGNORE_WHEN is used.
+ */
+#define LYD_VAL_WHEN_WAS_TRUE 0x80000000
+
+/**
  * @defgroup insertorder Data insert order.
  *
  * Various options for optimal node insertion.
